@@ -97,6 +97,19 @@ func GetT() T { return *NewT() }
 
 func GetS() S { return S{} }
 
+// hidden is unexported but its values escape through GetHidden.
+// @immutable
+// @constructor newHidden
+type hidden struct {
+	F int
+	// @mutable
+	M int
+}
+
+func newHidden() *hidden { return &hidden{} }
+
+func GetHidden() *hidden { return newHidden() }
+
 func own(x *T, s S) {
 	x.F = 1 // want IMM01
 	x.M = 1
@@ -178,6 +191,9 @@ func useA(x a.T, p *a.T, s a.S) {
 	a.PF()` + want(r, "PKGO02") + `
 	_ = a.PT{}` + want(r, "PKGO01") + `
 	s.PM()` + want(r, "PKGO03") + `
+	a.GetHidden().F = 1 // want IMM01
+	a.GetHidden().M = 1
+	a.GetHidden().F++ // want IMM03
 }
 
 // NewT shares the name of a's constructor but lives in another package.
